@@ -17,7 +17,9 @@ TECHNIQUE = ("property-based testing (Hypothesis): provenance validity predicate
              "(tiling + verbatim origin) over annotated single- and two-level "
              "assemblies, and a GenBank write/read round trip")
 RULE = ("(a) C08's annotated assemblies (all enzymes, chains 1-4, features on every "
-        "input, optional leftover module) with drawn GenBank-legal id/name "
+        "input, optional leftover module; in half of the cases the same vector and "
+        "module objects are assembled a second time and that product is judged too) "
+        "with drawn GenBank-legal id/name "
         "([A-Za-z0-9_.-]{1,16}); (b) two-level runs through the 8 kit triples of C11: "
         "the first product is typed by the next-level class and assembled into a "
         "generated next-level vector. Oracle: exact type CircularRecord; id/name as "
@@ -161,14 +163,22 @@ def check(spec, ctx):
                 mods.append(M(lo.record()))
                 supplied["leftover"] = lo.seq
 
+        vec = V(recs[0])
+        annot.touch([vec] + mods, a)
+
         def go():
             with warnings.catch_warnings():
                 warnings.simplefilter("ignore")
                 order = a["order"] + list(range(len(bms), len(mods)))
-                return V(recs[0]).assemble(*[mods[i] for i in order], id=pid, name=pname)
+                return vec.assemble(*[mods[i] for i in order], id=pid, name=pname)
         product = sut(go)
         ntiles, _ = check_provenance(product, supplied, used, pid, pname, "%s chain %d" % (a["enzyme"], len(bms)))
         round_trip(product, "single-level product")
+        if spec.get("again"):
+            # the same vector and module objects used for a second assembly
+            again = sut(go)
+            check_provenance(again, supplied, used, pid, pname,
+                             "%s chain %d, second call on the same objects" % (a["enzyme"], len(bms)))
         ctx.note(spec, ntiles >= 3, ["single", "tiles:%d" % min(ntiles, 6)] +
                  (["with-unused-module"] if "leftover" in supplied else []))
         return
@@ -221,7 +231,8 @@ def _specs(draw):
     pid, pname = draw(_ID), draw(_ID)
     if draw(st.integers(0, 2)):
         a = draw(annot.annotated_assembly(max_chain=4, max_seg=25))
-        spec = {"kind": "single", "assembly": a, "id": pid, "name": pname}
+        spec = {"kind": "single", "assembly": a, "id": pid, "name": pname,
+                "again": draw(st.booleans())}
         if draw(st.integers(0, 3)) == 0:
             g = dna.geometry(dna.enzyme_by_name(a["enzyme"]))
             lo = draw(plasmid.module_body(g, 15))
